@@ -33,6 +33,18 @@ SUMMARY = {
  "C17b": "Open no longer closes (unlocks) the file when getPageSize fails: a failed open of a < 2 KiB file keeps the flock",
  "C19b": "page type predicates test a bit instead of the exact value (invalid types containing the expected bit pass the check)",
  "C07b": "same patch as C08b (independent sub-agent): the C07 view is the page leak that remains after the caller's tx.Rollback()",
+ "C14b": "WriteTo sizes the data copy from the DB's current high-water mark instead of the transaction's (the copy is longer than Tx.Size() when writers grew the file)",
+ "C15b": "bbolt compact opens the source read-write (a source last committed with NoFreelistSync gets a freelist flushed into it)",
+ "C16b": "batch.run detaches only a not-yet-full batch from db.batch (a full batch that shrinks after a failure accepts new calls that are never run)",
+ "C20b": "surgery freelist abandon re-stamps the meta page id from the txid parity (wrong for hot backups / reverted files)",
+ "C10b": "tx.rollback(): Reload/NoSyncReload -> Read/Init (the pending pages of open readers become allocatable after a physically failed commit; both freelist-sync modes)",
+ "C13b": "tx.rollback() chooses scan-vs-read by db.NoFreelistSync instead of hasSyncedFreelist() (the still-referenced on-disk freelist page is counted free)",
+ "C18b": "Commit's spill-failure path uses nonPhysicalRollback (pages already taken from the freelist are never put back)",
+ "C03c": "DB.close stops the pending batch's timer and drops the batch (queued Batch callers are never answered)",
+ "C08c": "tx.rollback() releases the writer lock before reloading the freelist (a queued writer allocates pages that the reload then frees again)",
+ "C11b": "mmap() fails when either meta page has a non-checksum validation error (one damaged magic/version byte makes Open fail)",
+ "C01c": "shared.Free puts the pages of a multi-page freelist straight on the free list (the same commit overwrites the freelist the durable meta still points at)",
+ "C09b": "hashMap.Init no longer resets freePagesCount (after a Reload the count is too large and Write serialises page id 0 entries)",
 }
 rows = []
 for d in sorted(glob.glob("/verif/seeded/*/meta.json")):
